@@ -294,3 +294,23 @@ Proof.
       apply udp_receive_first in H. destruct H as [p1 [p2 [_ [Ha _]]]]. rewrite E in Ha. discriminate.
   - rewrite Hx in H. cbn [bind] in H. apply IH. exact H.
 Qed.
+
+(* ---------------------------------------------------------------- absolute deadlines (C15) *)
+(* whatever is armed at time [now] expires no later than start + lifetime: every deadline of the
+   blocking client — UDP send/recv, TCP connect/write (lifetime_left), TCP prefix and body reads —
+   is measured from the beginning of the CALL, not of the current transmission; the per-attempt
+   bound is measured from the transmission *)
+Theorem armed_before_call_deadline now start qs lifetime qt tau :
+  start <= qs -> qs <= now ->
+  (lifetime_left_at now start qs lifetime = Ok tau -> 0 < tau /\ now + tau <= start + lifetime) /\
+  (query_left_at now start qs lifetime qt = Ok tau ->
+     0 < tau /\ now + tau <= start + lifetime /\ now + tau <= qs + match qt with Some t => t | None => lifetime end) /\
+  (tcp_prefix_timeout_at now start qs lifetime = Ok tau -> 0 < tau /\ now + tau <= start + lifetime) /\
+  (tcp_body_timeout_at now start qs lifetime = Ok tau -> 0 < tau /\ now + tau <= start + lifetime).
+Proof.
+  intros H1 H2.
+  unfold lifetime_left_at, query_left_at, tcp_prefix_timeout_at, tcp_body_timeout_at,
+    std_clock_lifetime, std_clock_attempt, std_clock_tcp_prefix, std_clock_tcp_body.
+  destruct (armed_timeouts_within_lifetime (now - start) lifetime qt (now - qs) tau) as (A & B & C).
+  split; [|split; [|split]]; intro H; [apply A in H|apply B in H|apply C in H|apply C in H]; lia.
+Qed.
